@@ -207,6 +207,8 @@ class Verdict:
                     print("  detail: %s" % json.dumps(detail, default=str)[:600])
             if not seen:
                 print("VIOLATION property=%s replay=%s" % (self.pid, self.violations[0][2]))
+            allsigs = sorted(set(x[0] for x in self.violations))
+            print("  all deviation signatures (%d): %s" % (len(allsigs), "; ".join(allsigs)[:3000]))
             return 1
         print("OK property=%s tier=%s wall=%.1fs" % (self.pid, self.tier, time.time() - self.t0))
         return 0
